@@ -1,5 +1,6 @@
 import ZV.Model.C18
 import ZV.Model.Time
+import ZV.Generated.C20
 /-!
   C20, x509 level: models of the functions of `x509/x509.go` that read `asn1.AllowPermissiveParsing`
   (`parsePublicKey`, `parseGeneralNames`, the extension loop of `parseCertificate`), with the flag as the `perm`
@@ -8,7 +9,7 @@ import ZV.Model.Time
 
   Opaque parameters (`Sub`): sub-parsers that do not read the flag themselves and are too big to model
   (`parseTorServiceDescriptorSyntax`, `parseSignedCertificateTimestampList` / `ct.DeserializeSCT`,
-  `QCStatements.Parse`, the non-RSA arms of `parsePublicKey`).  The theorems quantify over them (with the hypothesis
+  `QCStatements.Parse`; `elliptic.Unmarshal` is the predicate `ecOk` of the bytes).  The theorems quantify over them (with the hypothesis
   that the sub-parser itself is conservative where it can depend on the mode); the driver gets their outcome on the
   case line (computed by the harness through a verif hook, and re-checked in `Exec`).
 
@@ -113,7 +114,14 @@ def unRDN (perm : Bool) (bs : Bytes) : Res Val :=
 
 inductive Key where
   | rsa (n e : Int)
-  | other (tok : Nat)
+  | dsa (y p q g : Int)
+  /-- `AugmentedECDSA`: the named curve (0 = P-224, 1 = P-256, 2 = P-384, 3 = P-521) and the encoded point (`X`, `Y` are a
+      function of the two) -/
+  | ecdsa (curve : Nat) (point : Bytes)
+  | ed25519 (b : Bytes)
+  | x25519 (b : Bytes)
+  /-- `default: return nil, nil` -/
+  | none
   deriving DecidableEq, Repr
 
 /-- the `case RSA:` arm.  SITE parsePublicKey/0 (strict-guard): the two sign checks.
@@ -131,9 +139,67 @@ def parsePublicKeyRSA (perm : Bool) (asn1Data : Bytes) : Res Key :=
         else .ok (.rsa n e)
       | _ => .panic
 
-/-- `parsePublicKey`: `algo = 1` is `RSA`; the other arms do not read the flag and are the opaque `other`. -/
-def parsePublicKey (other : Bool → Nat → Bytes → Res Key) (perm : Bool) (algo : Nat) (asn1Data : Bytes) : Res Key :=
-  if algo = 1 then parsePublicKeyRSA perm asn1Data else other perm algo asn1Data
+/-- dsaAlgorithmParameters{P, Q, G *big.Int} -/
+def dsaParamsSchema : Schema := .struct (.fcons {} .bigint (.fcons {} .bigint (.fcons {} .bigint .fnil)))
+
+/-- the sign test of the DSA arm (not guarded by the flag) -/
+def dsaCheck (yv pv : Val) : Res Key :=
+  match yv, pv with
+  | .int y, .vcons (.int p) (.vcons (.int q) (.vcons (.int g) .vnil)) =>
+    if y ≤ 0 ∨ p ≤ 0 ∨ q ≤ 0 ∨ g ≤ 0 then .err else .ok (.dsa y p q g)
+  | _, _ => .panic
+
+/-- the `case DSA:` arm: the flag is not read; the mode enters through the two `asn1.Unmarshal` calls only -/
+def parsePublicKeyDSA (perm : Bool) (asn1Data paramsFull : Bytes) : Res Key :=
+  match unmarshal perm .bigint {} asn1Data with
+  | .err => .err
+  | .panic => .err
+  | .ok (yv, rest) =>
+    if rest.length != 0 then .err
+    else match unmarshal perm dsaParamsSchema {} paramsFull with
+      | .err => .err
+      | .panic => .err
+      | .ok (pv, rest2) => if rest2.length != 0 then .err else dsaCheck yv pv
+
+/-- `namedCurveFromOID` -/
+def namedCurveFromOID (oid : List Int) : Option Nat :=
+  if oid = [1, 3, 132, 0, 33] then some 0
+  else if oid = [1, 2, 840, 10045, 3, 1, 7] then some 1
+  else if oid = [1, 3, 132, 0, 34] then some 2
+  else if oid = [1, 3, 132, 0, 35] then some 3
+  else none
+
+/-- the part of the ECDSA arm after the parameters are read; `ecOk curve data` stands for
+    `elliptic.Unmarshal(curve, data) != nil` (length, format byte, on-curve test: a predicate of the bytes) -/
+def ecdsaCheck (ecOk : Nat → Bytes → Bool) (ov : Val) (asn1Data : Bytes) : Res Key :=
+  match ov with
+  | .oid arcs =>
+    (match namedCurveFromOID arcs with
+     | none => .err
+     | some c => if ecOk c asn1Data then .ok (.ecdsa c asn1Data) else .err)
+  | _ => .panic
+
+/-- the `case ECDSA:` arm -/
+def parsePublicKeyECDSA (ecOk : Nat → Bytes → Bool) (perm : Bool) (asn1Data paramsFull : Bytes) : Res Key :=
+  match unmarshal perm .oid {} paramsFull with
+  | .err => .err
+  | .panic => .err
+  | .ok (ov, rest) => if rest.length != 0 then .err else ecdsaCheck ecOk ov asn1Data
+
+/-- `parsePublicKey`: `algo` = 1 RSA, 2 DSA, 3 ECDSA, 4 Ed25519, 5 X25519, anything else `return nil, nil`.
+    `asn1Data` = `keyData.PublicKey.RightAlign()`, `paramsFull` = `keyData.Algorithm.Parameters.FullBytes`.
+    Only the RSA arm reads the flag. -/
+def parsePublicKey (ecOk : Nat → Bytes → Bool) (perm : Bool) (algo : Nat) (asn1Data paramsFull : Bytes) : Res Key :=
+  if algo = 1 then parsePublicKeyRSA perm asn1Data
+  else if algo = 2 then parsePublicKeyDSA perm asn1Data paramsFull
+  else if algo = 3 then parsePublicKeyECDSA ecOk perm asn1Data paramsFull
+  else if algo = 4 then
+    if asn1Data.length > 32 then .err
+    else if asn1Data.length != 32 then .err
+    else .ok (.ed25519 asn1Data)
+  else if algo = 5 then
+    if asn1Data.length > 32 then .err else .ok (.x25519 asn1Data)
+  else .ok .none
 
 /-! ## parseGeneralNames -/
 
@@ -233,7 +299,8 @@ structure Cert where
   crldp : List Bytes := []
   aki : Val := .null
   ski : Val := .null
-  ekuCount : Nat := 0
+  ekuKnown : Nat := 0
+  ekuUnknown : List Val := []
   policies : Option (List Pol) := none
   ocsp : List Bytes := []
   issuers : List Bytes := []
@@ -250,6 +317,27 @@ structure Sub where
   /-- `parseSignedCertificateTimestampList`: (SCTs appended to `out` before returning, `err == nil`) -/
   sct : Bool → Bytes → Nat × Bool
   qcParse : Bool → Bytes → Option Unit
+
+/-- the loop of `parseSignedCertificateTimestampList`; `deser i chunk` stands for `ct.DeserializeSCT(chunk)` returning a
+    nil error for the `i`-th SCT (it reads TLS-encoded bytes, no ASN.1, and never consults the flag). `fuel` = `len(scts)`. -/
+def sctLoop (deser : Nat → Bytes → Bool) : (fuel : Nat) → (idx : Nat) → Bytes → Nat → Nat × Bool
+  | _, _, [], n => (n, true)
+  | _, _, [_], n => (n, false)
+  | 0, _, _ :: _ :: _, n => (n, false)
+  | f + 1, i, b0 :: b1 :: rest, n =>
+    if !(b1.toNat + b0.toNat * 256 + 2 ≤ rest.length + 2) then (n, false)
+    else if deser i (rest.take (b1.toNat + b0.toNat * 256)) then
+      sctLoop deser f (i + 1) (rest.drop (b1.toNat + b0.toNat * 256)) (n + 1)
+    else (n, false)
+
+/-- `parseSignedCertificateTimestampList`: (SCTs appended, `err == nil`).  The mode enters through the one
+    `asn1.Unmarshal(ext.Value, &scts)` only. -/
+def parseSCTList (deser : Nat → Bytes → Bool) (perm : Bool) (value : Bytes) : Nat × Bool :=
+  match un perm .octets {} value with
+  | .ok (.bytes scts) => if scts.length < 2 then (0, false) else sctLoop deser scts.length 0 (scts.drop 2) 0
+  | .ok _ => (0, false)
+  | .err => (0, false)
+  | .panic => (0, false)
 
 structure Ext where
   id : List Int
@@ -425,6 +513,17 @@ def polElem (perm : Bool) (pv : Val) (acc : List Pol) : List Pol × Bool :=
      | (_, false) => (acc, false))
   | _ => (acc, true)
 
+/-- `extKeyUsageFromOID`'s `ok`: membership in the key set of `ekuConstants` (T1 table `ZV.Generated.C20.ekuKnownOIDs`,
+    go/ast; the map is keyed by `oid.String()`, and two OIDs have the same dotted string iff they have the same arcs) -/
+def ekuIsKnown (arcs : List Int) : Bool := ZV.Generated.C20.ekuKnownOIDs.contains arcs
+
+/-- `for _, u := range keyUsage { if _, ok := extKeyUsageFromOID(u); ok { ExtKeyUsage = append(…) } else { UnknownExtKeyUsage = append(…, u) } }`;
+    the known usages are kept as their number (the `ExtKeyUsage` enum value is a table lookup outside the model) -/
+def ekuSplit : Val → Nat × List Val → Nat × List Val
+  | .vcons (.oid a) rest, (n, u) => if ekuIsKnown a then ekuSplit rest (n + 1, u) else ekuSplit rest (n, u ++ [.oid a])
+  | .vcons _ rest, acc => ekuSplit rest acc
+  | _, acc => acc
+
 def oidAIA : List Int := [1, 3, 6, 1, 5, 5, 7, 1, 1]
 def oidSCT : List Int := [1, 3, 6, 1, 4, 1, 11129, 2, 4, 2]
 def oidPoison : List Int := [1, 3, 6, 1, 4, 1, 11129, 2, 4, 3]
@@ -482,7 +581,9 @@ def extStep (sub : Sub) (perm : Bool) (e : Ext) (out : Cert) : Res Cert :=
       | .vcons id .vnil => .ok { out with aki := id }
       | _ => .panic) out
   else if e.id = [2, 5, 29, 37] then                    -- SITE parseCertificate/14 (strict-guard form)
-    guardStep perm (un perm ekuSchema {} e.value) (fun l => .ok { out with ekuCount := out.ekuCount + chainLength l }) out
+    guardStep perm (un perm ekuSchema {} e.value) (fun l =>
+      let r := ekuSplit l (out.ekuKnown, out.ekuUnknown)
+      .ok { out with ekuKnown := r.1, ekuUnknown := r.2 }) out
   else if e.id = [2, 5, 29, 14] then                    -- SITE parseCertificate/15
     guardStep perm (un perm .octets {} e.value) (fun k => .ok { out with ski := k }) out
   else if e.id = [2, 5, 29, 32] then                    -- SITE parseCertificate/16 (+ /17, /18 in qualElem)
@@ -531,9 +632,9 @@ def parseExts (sub : Sub) (perm : Bool) : List Ext → Cert → Res Cert
 /-- `parseCertificate` restricted to the fields of `Cert`: `parsePublicKey`, then the extension loop.
     (Everything between the two — names, validity, fingerprints, the self-signature test — does not read the flag
     directly; the byte-level asn1 dependence of `ParseCertificate` as a whole is `perm_extends`.) -/
-def parseCertificate (other : Bool → Nat → Bytes → Res Key) (sub : Sub) (perm : Bool) (algo : Nat) (keyData : Bytes)
+def parseCertificate (ecOk : Nat → Bytes → Bool) (sub : Sub) (perm : Bool) (algo : Nat) (keyData paramsFull : Bytes)
     (exts : List Ext) : Res Cert :=
-  match parsePublicKey other perm algo keyData with
+  match parsePublicKey ecOk perm algo keyData paramsFull with
   | .ok k => parseExts sub perm exts { key := some k }
   | .err => .err
   | .panic => .panic
